@@ -183,6 +183,45 @@ func c16Exhaustive(c *Ctx) {
 		}
 	}
 	c.Exhaustive(fmt.Sprintf("exhaustive: all ordered lists of 0..%d intervals with start,end in 0..4, queried at every position -1..5", maxN))
+	// The same over the ends of the integer range: every list of up to 2 (thorough:
+	// 3) intervals with start, end in {MinInt, MinInt+1, -1, 0, 1, MaxInt-1, MaxInt},
+	// queried at each of these coordinates (sentinels and overflow live here).
+	ext := []int{math.MinInt, math.MinInt + 1, -1, 0, 1, math.MaxInt - 1, math.MaxInt}
+	E := len(ext)
+	for n := 1; n <= c.N(2, 3); n++ {
+		total := int(pow(E*E, n))
+		const batch = 2401
+		for lo := 0; lo < total; lo += batch {
+			c.Case(idx, func(k *K) {
+				starts := make([]int, n)
+				ends := make([]int, n)
+				cnt := int64(0)
+				for code := lo; code < min(total, lo+batch); code++ {
+					x := code
+					for j := 0; j < n; j++ {
+						starts[j] = ext[x%E]
+						x /= E
+						ends[j] = ext[x%E]
+						x /= E
+					}
+					ix := regions.NewIndex(starts, ends)
+					k.Count("indexes_built", 1)
+					k.Input("starts", append([]int{}, starts...))
+					k.Input("ends", append([]int{}, ends...))
+					for _, q := range ext {
+						if !checkAt(k, ix, starts, ends, q) {
+							return
+						}
+					}
+					cnt++
+				}
+				k.Evals(cnt - 1)
+				k.DistinctBC(cnt)
+			})
+			idx++
+		}
+	}
+	c.Exhaustive(fmt.Sprintf("exhaustive: all ordered lists of 1..%d intervals over 7 coordinates at the ends of the int range, queried at each of them", c.N(2, 3)))
 }
 
 var extremeCoords = []int{math.MinInt, math.MinInt + 1, -1000000, -2, -1, 0, 1, 2, 1000000, math.MaxInt - 1, math.MaxInt}
